@@ -77,6 +77,7 @@ func (p *parser) parse() (e *expr.Expression, err error) {
 				final = expr.Expr(p.defaultField, expr.Equals, final)
 			}
 
+			vtrace(p, "accept", next)
 			return final, nil
 		}
 
@@ -102,6 +103,7 @@ func (p *parser) parse() (e *expr.Expression, err error) {
 							if err != nil {
 								return e, err
 							}
+							vtrace(p, "implAndReduce", next)
 						}
 
 						// if we have a literal as the previous parsed thing then
@@ -112,11 +114,13 @@ func (p *parser) parse() (e *expr.Expression, err error) {
 				}
 
 				p.stack = append(p.stack, lit)
+				vtrace(p, "shiftT", next)
 				continue
 			}
 			// otherwise just push the token on the stack
 			p.stack = append(p.stack, tok)
 			p.nonTerminals = append(p.nonTerminals, tok)
+			vtrace(p, "shift", next)
 			continue
 		}
 
@@ -124,6 +128,7 @@ func (p *parser) parse() (e *expr.Expression, err error) {
 		if err != nil {
 			return e, err
 		}
+		vtrace(p, "reduce", next)
 	}
 }
 
@@ -210,6 +215,7 @@ func (p *parser) reduce() (err error) {
 
 		// try to reduce with all our reducers
 		var reduced bool
+		vpopped(p, len(top))
 		top, p.nonTerminals, reduced = reduce.Reduce(top, p.nonTerminals, p.defaultField)
 
 		// if we consumed some non terminals during the reduce it means we successfully reduced
